@@ -3,6 +3,7 @@
 From Coq Require Import Ascii String List Bool Arith NArith Permutation Sorted.
 Import ListNotations.
 From AM Require Import Lib.Bytes Model.DirReader Proofs.DirReaderLemmas.
+From AM Require Import Lib.GoStrings Gen.PureFuncs Proofs.PureFuncsTie.
 
 (* Names.  For every directory listing without repeated names: the names read are exactly the
    audit logs listed (other entries are dropped), ordered so that a larger suffix number comes
@@ -123,3 +124,27 @@ Example C20_example_unset_lastsz_loses_line :
   run_tail (RS 4 0) (hx "6f6c640a") [Truncate; Append (hx "6e65770a")] = [[]; []] /\
   run_tail (fst (startup [(Live, hx "6f6c640a")])) (hx "6f6c640a") [Truncate; Append (hx "6e65770a")] = [[]; [hx "6e6577"]].
 Proof. vm_compute. split; reflexivity. Qed.
+
+(* ---------- the order of the model is the comparator of the source ----------
+   Gen/PureFuncs.v is REGENERATED on every run from logRotationNumber and from the closure handed to
+   sort.Slice in sortLogNamesOldToNew (uint64 arithmetic modelled exactly, mod 2^64; the rune loop as a
+   byte loop, which the translator justifies by evaluating the loop's guard on every non-ASCII rune).
+   On rendered names ("audit.log", "audit.log." ++ canonical decimal of n, n < 2^64) the generated
+   comparator is the strict part of the model's order [before], and the generated rotation number of
+   "audit.log.N" is N: what C20_sort is about is what the code compares. *)
+Theorem C20_rotation_number_from_source : forall n,
+  gen_log_rotation_number (render_name (Rot n)) = Some (go_u64 (N.of_nat n), true).
+Proof. exact log_rotation_number_render. Qed.
+Print Assumptions C20_rotation_number_from_source.
+
+Theorem C20_comparator_from_source : forall a b,
+  is_log a = true -> is_log b = true -> small a -> small b ->
+  gen_log_name_less (render_name a) (render_name b) = Some (negb (before b a)).
+Proof. exact log_name_less_render. Qed.
+Print Assumptions C20_comparator_from_source.
+
+(* for ALL byte strings (leading zeros, suffixes >= 2^64 that wrap, non-decimal suffixes): the generated
+   functions meet these closed-form specifications and never panic *)
+Theorem C20_rotation_number_spec : forall name, gen_log_rotation_number name = Some (log_rotation_number_model name).
+Proof. exact log_rotation_number_spec. Qed.
+Print Assumptions C20_rotation_number_spec.
